@@ -751,8 +751,19 @@ func (m *MonC06) OnEnd(w *World) []Violation {
 					}
 				}
 				if rq == nil && pendingOnly {
-					m.class("obligation_void")
-					continue
+					// the subscribe that was outstanding succeeded: unless what it handed
+					// over is an error placeholder, the deferred re-check has to follow
+					errRoot := false
+					for _, h := range c.Ref.Handovers {
+						if h.RID == rid && h.T > tr.T && h.Fresh {
+							errRoot = h.IsErr
+							break
+						}
+					}
+					if errRoot {
+						m.class("obligation_void")
+						continue
+					}
 				}
 				if rq == nil {
 					if closedT >= 0 || (zeroT >= 0 && zeroKind != "unsubev") || w.mq.PendingCount() > 0 {
